@@ -886,6 +886,15 @@ impl<'a> Searcher<'a> {
             return Variant::from_string(cached);
         }
         
+        // the negation of a value that is already known (a grouping key in a group row)
+        if column_expr.minus {
+            if let Some(positive) = column_expr_str.strip_prefix('-') {
+                if let Some(cached) = file_map.get(positive) {
+                    return Self::apply_sign(Variant::from_string(cached), true);
+                }
+            }
+        }
+
         if let Some(ref _function) = column_expr.function {
             let result =
                 self.get_function_value(entry, file_info, file_map, buffer_data, column_expr);
